@@ -110,6 +110,13 @@ def gen(rng, i, tier):
         from . import c16 as C
         props, charts = C.rand_sm(rng)
         props = [kv for kv in props if not any(kv[0] in ks for ks in SF_INVALID.values())]     # the round-trip clause: no SSC-only key in the SM source
+        if rng.random() < 0.35:                # the SM-only spellings travel through the SSC simfile as ordinary keys
+            have = {k for k, _ in props}
+            for kv in (["FREEZES", "4.000=1.000"], ["ANIMATIONS", "bg.avi"]):
+                if kv[0] not in have and rng.random() < 0.7:
+                    props.insert(rng.randrange(len(props) + 1), kv)
+            if rng.random() < 0.5:
+                props = [kv for kv in props if kv[0] != "STOPS"]
         return {"src": ["roundtrip", [props, charts]], "beh": {}, "ts": None, "tc": None}
     props, charts = rand_ssc(rng)
     ts = tc = None
